@@ -1,9 +1,11 @@
 package checks
 
 import (
+	"encoding/hex"
 	"encoding/json"
 	"errors"
 	"fmt"
+	"github.com/lidofinance/dc4bc/client/api/dto"
 	"sort"
 	"strings"
 	"sync"
@@ -158,6 +160,7 @@ func explore06(r *kit.Run, n, t int) (int, int, string) {
 	attempts, cancels, sampled := 0, 0, 0
 	outcomes := map[string]int{}
 
+	roundBytes, _ := hex.DecodeString(round)
 	next := func(w int, s *xsearch.St) ([]*xsearch.St, error) {
 		lab := labs[w]
 		cur := s.Data.(*st06)
@@ -304,6 +307,17 @@ func explore06(r *kit.Run, n, t int) (int, int, string) {
 			if after.Equal(snap) && mon.key() == cur.Mon.key() {
 				out = append(out, &xsearch.St{Key: s.Key, Data: cur, Via: in.Label})
 				continue
+			}
+			// "... the round returns to idle and accepts the next proposal": when no batch is running
+			// the node's own API must let its operator propose one (a proposal comes from somewhere)
+			if mon.Cur == "" && idleLike(dA.State) {
+				probe := &dto.ProposeSignBatchMessagesDTO{DkgID: roundBytes, Data: map[string][]byte{"api-probe": []byte("x")}}
+				lab.Node.Mem.Restore(after)
+				lab.Board.SetLog(nil)
+				if perr := lab.Node.Svc.ProposeSignMessages(probe); perr != nil {
+					viol("C06/proposal-api-refuses-when-no-batch-runs/"+string(dA.State), fmt.Sprintf("no batch is running (round state %s) but the node's proposal API refuses: %v", dA.State, perr))
+					continue
+				}
 			}
 			c := &st06{Snap: store.put(after), Mon: mon}
 			out = append(out, &xsearch.St{Key: c.Snap + mon.key(), Data: c, Via: in.Label})
